@@ -453,6 +453,8 @@ def special_flag(F):
             is_some = rhs.get("k") == "Call" and (rhs.get("fres") or {}).get("variant") == "Some"
             if not ((pp.endswith(".block_alt") or pp == "self.block_alt") and is_some):
                 continue
+            if fn["name"] == "add_instr" and (fn.get("self_adt") or "").endswith("::InstrumentationFlag"):
+                continue        # add_instr's own acceptance test is judged by cases on the mode (clause below)
             n_w += 1
             in_flag_impl = (fn.get("self_adt") or "").endswith(("::InstrumentationFlag", "::Instruction"))
             if in_flag_impl:
@@ -501,16 +503,58 @@ def special_flag(F):
     ai = F.one_fn(name="add_instr", self_adt="InstrumentationFlag")
     r.analysed.append(ai["path"])
     special = {"SemanticAfter", "BlockEntry", "BlockExit", "BlockAlt"}
+    # the result may be spelled `special.is_some()` where `special` is what a per-mode classifier returned (None for the
+    # plain modes, Some(..) for the special ones): then the Option constructors inside that local's initialiser decide
+    from vlib.facts import binding_site
+    tail_ = ai["body"].get("expr") if ai["body"].get("k") == "Block" else None
+    tail_ = peel(tail_) if isinstance(tail_, dict) else {}
+    opt_ids, opt_neg = set(), False
+    if tail_.get("k") == "MethodCall" and tail_["method"] in ("is_some", "is_none") and peel(tail_["recv"]).get("k") == "Path":
+        _p, init_, _k = binding_site(ai["body"], peel(tail_["recv"]).get("res", {}).get("hid"))
+        if isinstance(init_, dict):
+            opt_ids = {id(x) for x in walk(init_)}
+            opt_neg = tail_["method"] == "is_none"
     for M in sorted(F.variants(IM)):
         sel, inl = mode_case_callbacks(F, IM, M)
 
         def cl(n):
-            if n.get("k") == "Lit" and n.get("lit", "").startswith("Bool"):
+            if n.get("k") == "Lit" and n.get("lit", "").startswith("Bool") and not opt_ids:
                 return n["lit"]
+            if opt_ids and id(n) in opt_ids:
+                if n.get("k") == "Call" and (n.get("fres") or {}).get("variant") == "Some":
+                    return "Bool(false)" if opt_neg else "Bool(true)"
+                if n.get("k") == "Path" and (n.get("res") or {}).get("variant") == "None":
+                    return "Bool(true)" if opt_neg else "Bool(false)"
             return None
         rets = set()
         for ev, st in normal_paths(paths(ai["body"], cl, select_arms=sel, inline_calls=inl)):
             rets.add(ev[-1] if ev else None)
+        if None in rets:
+            r.undecided("add_instr in mode %s: how the returned flag is computed was not recognised" % M)
+            continue
+        # the value returned in the arm for M itself: a special mode reports `true` as a constant — a flag computed from the
+        # current contents of a list (`self.block_alt.is_none()`: "only the first injection is special") is false on some
+        # histories, and the function is then never visited by the resolver
+        if M in special and not opt_ids:
+            from rules.fields import _tail_values
+            for m_ in walk(ai["body"]):
+                if m_.get("k") != "Match":
+                    continue
+                picked = sel(m_)
+                if not picked:
+                    continue
+                for i_ in picked:
+                    for tv in _tail_values(m_["arms"][i_]["body"]):
+                        tv = peel(tv)
+                        src_ = tv
+                        if tv.get("k") == "Path" and tv.get("res", {}).get("r") == "local":
+                            _p, init_, _k = binding_site(ai["body"], tv["res"]["hid"])
+                            src_ = peel(init_) if isinstance(init_, dict) else tv
+                        state = [y for y in walk(src_) if y.get("k") == "Field" and (place_path(y) or "").startswith("self.")]
+                        if src_.get("k") != "Lit" and state:
+                            r.ob(False, {"mode": M, "returns": "computed from " + (place_path(state[0]) or "?")})
+                            r.violate("%s | %s returns computed flag" % (ai["path"], M), F.loc(ai, tv if "sp" in tv else None),
+                                      "with mode %s add_instr returns a value computed from `%s` instead of the constant true: on a history where that state differs (a slot created earlier by a tag, a second injection) the special-mode injection is reported as ordinary and the resolver never visits the function" % (M, place_path(state[0])))
         want = "Bool(true)" if M in special else "Bool(false)"
         ok = rets == {want}
         r.ob(ok, {"mode": M, "returns": sorted(map(str, rets))})
